@@ -51,10 +51,19 @@ inductive SType where
   | seq (fs : SFields)            -- the fields of one constructor, in schema order
   | sum (cs : SCtors)             -- the constructors of a type with their tags
   | tag (bits : List Bool)        -- the tag of a single-constructor type, where Go stores it as a Magic field
-  | hashmapE                      -- hme_empty$0 (the empty dictionary is the only dictionary value in scope)
+  | hashmapE (n : Nat) (k t : SType)
+      -- hme_empty$0 {n:#} {X:Type} = HashmapE n X;  hme_root$1 {n:#} {X:Type} root:^(Hashmap n X) = HashmapE n X;
+      -- `k`: the schema type of the n-bit key; the tree `Hashmap n X` is the dictionary model of C05
   | anycast                       -- anycast_info$_ depth:(#<= 30) { depth >= 1 } rewrite_pfx:(bits depth)
   | msgAddress                    -- MsgAddressInt / MsgAddressExt, four constructors (see `specMsgAddress`)
   | payloadList                   -- wallet v1..v4: up to four (mode:uint8, ^msg)
+  | enum (cs : List (List UInt8 × List Bool))
+      -- a type all of whose constructors are bare tags; Go holds the value as a string constant: (its bytes, tag)
+  | outList                       -- OutList n of send-message actions (see `specOutList`)
+  | highloadDict                  -- HashmapE 16 SendMessageAction over the message list (see `hlToDict`)
+  | chainOf (t : SType)
+      -- action_list_extended$_ action:X prev:^(…) : a non-empty list, every element but the first behind one more
+      -- reference; the list ends where there is no further element
   | named (n : String)
   | goPtr (t : SType)             -- Go holds the value through a pointer: dump `(x)`; no TL-B meaning
 inductive SFields where
@@ -75,7 +84,14 @@ def nameAliases : List (List Char × List Char) := [
   ("seqno".toList, "msgseqno".toList),          -- wallet.MessageV3/V4.Seqno      : msg_seqno
   ("rawmessages".toList, "messages".toList),    -- wallet.MessageV3/V4.RawMessages: the (mode, ^msg) list
   ("sign".toList, "signature".toList),          -- wallet.SignedMsgBody.Sign      : signature
-  ("message".toList, "body".toList)]            -- wallet.SignedMsgBody.Message   : the signed body
+  ("message".toList, "body".toList),            -- wallet.SignedMsgBody.Message   : the signed body
+  ("stateinit".toList, []),                     -- tlb.AccountState.AccountActive.StateInit : `_:StateInit`
+  ("vm".toList, []),                            -- tlb.TrComputePhase.TrPhaseComputeVm.Vm   : the anonymous `^[ … ]`
+  ("msgs".toList, []),
+  ("extendedactions".toList, "extended".toList),
+  ("rawmessages".toList, "payload".toList),     -- wallet.HighloadV2Message.RawMessages  : payload
+  ("boundedqueryid".toList, "queryid".toList),
+  ("feeburnnom".toList, "feeburnnum".toList)]   -- tlb.BurningConfig.FeeBurnNom           : fee_burn_num  -- wallet.HighloadV2Message.BoundedQueryID: query_id -- wallet.MessageV5.*.ExtendedActions               : extended                          -- tlb.Transaction.Msgs                     : the anonymous `^[ … ]`
 
 /-- the Go field at a position carries the name the schema gives to the field at that position -/
 def nameAgrees (goName schemaName : String) : Bool :=
@@ -126,6 +142,63 @@ def specMsgAddress (v : Val) : Option Chunk :=
         (tagBits "$11" ++ (c.1 ++ (natToBits 9 bs.length ++ (intToBits 32 wc ++ bs))), c.2)
     else none
   | _ => none
+
+def mapMOpt {α β} (f : α → Option β) : List α → Option (List β)
+  | [] => some []
+  | a :: as =>
+    match f a, mapMOpt f as with
+    | some b, some bs => some (b :: bs)
+    | _, _ => none
+
+/-- the value codec of a dictionary whose values serialise as the schema says -/
+def specCodec (f : Val → Option Chunk) : Hashmap.Codec Val where
+  enc v := match f v with
+    | some c => .ok c
+    | none => .err "no schema serialisation"
+  dec _ _ := .err "encoder only"
+
+/-- an n-bit dictionary key: the bits of its schema serialisation -/
+def keyBits (n : Nat) (c : Option Chunk) : Option Hashmap.Key :=
+  match c with
+  | some c => if c.1.length = n ∧ c.2.isEmpty then some c.1 else none
+  | none => none
+
+/-- `HashmapE n X`, given how keys (`kf`) and values (`vf`) serialise -/
+def specDict (n : Nat) (kf vf : Val → Option Chunk) (v : Val) : Option Chunk :=
+  match dictParts v with
+  | some (ks, vs) =>
+    if ks.isEmpty then some ([false], [])                         -- hme_empty$0
+    else (match mapMOpt (fun kv => keyBits n (kf kv)) ks with
+      | some kbits => (match zipKV kbits vs with
+        | some kvs =>
+          -- hme_root$1 root:^(Hashmap n X): the tree of C05 (`Hashmap.marshal`: hm_edge / hmn_leaf / hmn_fork with the
+          -- shortest labels) over the values as the schema serialises them
+          (match Hashmap.marshal (specCodec vf) n kvs with
+          | .ok root => some ([true], [root])
+          | _ => none)
+        | none => none)
+      | none => none)
+  | none => none
+
+/-- out_list_empty$_ = OutList 0;
+    out_list$_ {n:#} prev:^(OutList n) action:OutAction = OutList (n + 1);
+    action_send_msg#0ec3c86d mode:(## 8) out_msg:^(MessageRelaxed Any) = OutAction;
+The Go slice lists the newest action first: (Magic, Mode, Msg) with the message as a cell. -/
+def specOutList : Val → Option Chunk
+  | .nil => some ([], [])
+  | .cons (.cons _ (.cons (.int mode) (.cons (.cons (.cell c) .nil) .nil))) rest =>
+    if 0 ≤ mode ∧ mode < 256 then
+      (specOutList rest).map fun prev =>
+        (tagBits "#0ec3c86d" ++ natToBits 8 mode.toNat, [Cell.mk 0 0 prev.1 prev.2, c])
+    else none
+  | _ => none
+
+/-- one step of a reference chain: the element `c`, then (unless it is the last) one more reference to the cell with
+the serialisation `r` of the remaining elements -/
+def chainStep (c : Option Chunk) (rest : Val) (r : Option Chunk) : Option Chunk :=
+  match c with
+  | some c => if rest.isNil then some c else r.map fun r => (c.1, c.2 ++ [Cell.mk 0 0 r.1 r.2])
+  | none => none
 
 def specPayloadItems : Val → Option Chunk
   | .nil => some ([], [])
@@ -191,12 +264,23 @@ def specChunk (senv : SEnv) : Nat → SType → Val → Option Chunk
         | none => none)
       | _ => none)
     | .tag bits => some (bits, [])
-    | .hashmapE => (match v with
-      | .nil => some ([false], [])
-      | _ => none)
+    | .hashmapE n sk st => specDict n (fun x => specChunk senv fuel sk x) (fun x => specChunk senv fuel st x) v
     | .anycast => specAnycast v
     | .msgAddress => specMsgAddress v
     | .payloadList => if Prim.valLen v ≤ 4 then specPayloadItems v else none
+    | .enum cs => (match v with
+      | .bytes bs => (cs.find? fun c => c.1 == bs).map fun c => (c.2, [])
+      | _ => none)
+    | .outList => specOutList v
+    | .highloadDict =>
+      -- message i ↦ key i; the value `send_msg#_ mode:uint8 message:^MessageRelaxed` is the cell content `hlToDict`
+      -- builds (8 bits, one reference)
+      (match hlToDict v with
+      | some d => specChunk senv fuel (.hashmapE 16 (.nat 16) .any) d
+      | none => none)
+    | .chainOf t => (match v with
+      | .cons x rest => chainStep (specChunk senv fuel t x) rest (specChunk senv fuel (.chainOf t) rest)
+      | _ => none)
     | .named n => (match senv n with
       | some t => specChunk senv fuel t v
       | none => none)
@@ -254,6 +338,10 @@ def byName (senv : SEnv) : Nat → SType → Val → Val
     | .goPtr t => (match v with
       | .cons x .nil => .cons (byName senv fuel t x) .nil
       | _ => v)
+    | .chainOf t => Val.list (v.toList.map fun x => byName senv fuel t x)
+    | .hashmapE _ _ st => (match v with
+      | .cons ks (.cons vs .nil) => .cons ks (.cons (Val.list (vs.toList.map fun x => byName senv fuel st x)) .nil)
+      | _ => v)
     | _ => v
 def byNameFields (senv : SEnv) : Nat → SFields → Val → Val
   | 0, _, v => v
@@ -276,7 +364,7 @@ def specCell (senv : SEnv) (fuel : Nat) (S : SType) (v : Val) : Option Cell :=
 def Grams : SType := .varUint 16
 
 /-- extra_currencies$_ dict:(HashmapE 32 (VarUInteger 32)) = ExtraCurrencyCollection; -/
-def ExtraCurrencyCollection : SType := .seq (.cons "dict" .hashmapE .nil)
+def ExtraCurrencyCollection : SType := .seq (.cons "dict" (.hashmapE 32 (.nat 32) (.varUint 32)) .nil)
 
 /-- currencies$_ grams:Grams other:ExtraCurrencyCollection = CurrencyCollection; -/
 def CurrencyCollection : SType := .seq (.cons "grams" Grams (.cons "other" (.named "ExtraCurrencyCollection") .nil))
@@ -304,11 +392,14 @@ def CommonMsgInfo : SType := .sum
 /-- tick_tock$_ tick:Bool tock:Bool = TickTock; -/
 def TickTock : SType := .seq (.cons "tick" .bool (.cons "tock" .bool .nil))
 
+/-- simple_lib$_ public:Bool root:^Cell = SimpleLib; -/
+def SimpleLib : SType := .seq (.cons "public" .bool (.cons "root" .cellRef .nil))
+
 /-- _ split_depth:(Maybe (## 5)) special:(Maybe TickTock) code:(Maybe ^Cell) data:(Maybe ^Cell)
       library:(HashmapE 256 SimpleLib) = StateInit; -/
 def StateInit : SType := .seq
   (.cons "split_depth" (.maybe (.nat 5)) (.cons "special" (.maybe (.named "TickTock"))
-  (.cons "code" (.maybe .cellRef) (.cons "data" (.maybe .cellRef) (.cons "library" .hashmapE .nil)))))
+  (.cons "code" (.maybe .cellRef) (.cons "data" (.maybe .cellRef) (.cons "library" (.hashmapE 256 (.bits 256) (.named "SimpleLib")) .nil)))))
 
 /-- message$_ {X:Type} info:CommonMsgInfo init:(Maybe (Either StateInit ^StateInit)) body:(Either X ^X)
       = Message X;   (X := Any) -/
@@ -332,11 +423,270 @@ def WalletV4Body : SType := .seq
 /-- the signed envelope of wallets v1..v4: signature:bits512 followed by the signed body (the rest of the cell) -/
 def SignedMsgBody : SType := .seq (.cons "signature" (.bits 512) (.cons "body" .any .nil))
 
+/-! ### accounts -/
+
+/-- storage_used$_ cells:(VarUInteger 7) bits:(VarUInteger 7) = StorageUsed; -/
+def StorageUsed : SType := .seq (.cons "cells" (.varUint 7) (.cons "bits" (.varUint 7) .nil))
+
+/-- storage_extra_none$000 = StorageExtraInfo;
+    storage_extra_info$001 dict_hash:uint256 = StorageExtraInfo;   (Go holds the uint256 as 32 bytes: bits256) -/
+def StorageExtraInfo : SType := .sum
+  (.cons "storage_extra_none" (tagBits "$000") "StorageExtraNone" (.seq .nil)
+  (.cons "storage_extra_info" (tagBits "$001") "StorageExtraInfo" (.seq (.cons "dict_hash" (.bits 256) .nil))
+  .nil))
+
+/-- storage_info$_ used:StorageUsed storage_extra:StorageExtraInfo last_paid:uint32
+      due_payment:(Maybe Grams) = StorageInfo; -/
+def StorageInfo : SType := .seq
+  (.cons "used" (.named "StorageUsed") (.cons "storage_extra" (.named "StorageExtraInfo")
+  (.cons "last_paid" (.nat 32) (.cons "due_payment" (.maybe Grams) .nil))))
+
+/-- account_uninit$00 = AccountState;
+    account_active$1 _:StateInit = AccountState;
+    account_frozen$01 state_hash:bits256 = AccountState; -/
+def AccountState : SType := .sum
+  (.cons "account_uninit" (tagBits "$00") "AccountUninit" (.seq .nil)
+  (.cons "account_active" (tagBits "$1") "AccountActive" (.seq (.cons "_" (.named "StateInit") .nil))
+  (.cons "account_frozen" (tagBits "$01") "AccountFrozen" (.seq (.cons "state_hash" (.bits 256) .nil))
+  .nil)))
+
+/-- account_storage$_ last_trans_lt:uint64 balance:CurrencyCollection state:AccountState = AccountStorage; -/
+def AccountStorage : SType := .seq
+  (.cons "last_trans_lt" (.nat 64) (.cons "balance" (.named "CurrencyCollection")
+  (.cons "state" (.named "AccountState") .nil)))
+
+/-- the fields of `account$1`: addr:MsgAddressInt storage_stat:StorageInfo storage:AccountStorage
+    (Go: tlb.ExistedAccount) -/
+def ExistedAccount : SType := .seq
+  (.cons "addr" .msgAddress (.cons "storage_stat" (.named "StorageInfo")
+  (.cons "storage" (.named "AccountStorage") .nil)))
+
+/-- account_none$0 = Account;
+    account$1 addr:MsgAddressInt storage_stat:StorageInfo storage:AccountStorage = Account; -/
+def Account : SType := .sum
+  (.cons "account_none" (tagBits "$0") "AccountNone" (.seq .nil)
+  (.cons "account" (tagBits "$1") "Account" (.named "ExistedAccount")
+  .nil))
+
+/-- account_descr$_ account:^Account last_trans_hash:bits256 last_trans_lt:uint64 = ShardAccount; -/
+def ShardAccount : SType := .seq
+  (.cons "account" (.ref (.named "Account")) (.cons "last_trans_hash" (.bits 256)
+  (.cons "last_trans_lt" (.nat 64) .nil)))
+
+/-- acc_state_uninit$00 = AccountStatus;  acc_state_frozen$01 = AccountStatus;
+    acc_state_active$10 = AccountStatus;  acc_state_nonexist$11 = AccountStatus;
+    (Go: the string constants "uninit", "frozen", "active", "nonexist") -/
+def AccountStatus : SType := .enum
+  [(Prim.s_uninit, tagBits "$00"), (Prim.s_frozen, tagBits "$01"), (Prim.s_active, tagBits "$10"),
+   (Prim.s_nonexist, tagBits "$11")]
+
+/-! ### transactions -/
+
+/-- acst_unchanged$0 = AccStatusChange;  acst_frozen$10 = AccStatusChange;  acst_deleted$11 = AccStatusChange; -/
+def AccStatusChange : SType := .enum
+  [(Prim.s_acst_unchanged, tagBits "$0"), (Prim.s_acst_frozen, tagBits "$10"), (Prim.s_acst_deleted, tagBits "$11")]
+
+/-- cskip_no_state$00 = ComputeSkipReason;  cskip_bad_state$01 = ComputeSkipReason;
+    cskip_no_gas$10 = ComputeSkipReason;    cskip_suspended$110 = ComputeSkipReason; -/
+def ComputeSkipReason : SType := .enum
+  [(Prim.s_cskip_no_state, tagBits "$00"), (Prim.s_cskip_bad_state, tagBits "$01"),
+   (Prim.s_cskip_no_gas, tagBits "$10"), (Prim.s_cskip_suspended, tagBits "$110")]
+
+/-- tr_phase_storage$_ storage_fees_collected:Grams storage_fees_due:(Maybe Grams)
+      status_change:AccStatusChange = TrStoragePhase; -/
+def TrStoragePhase : SType := .seq
+  (.cons "storage_fees_collected" Grams (.cons "storage_fees_due" (.maybe Grams)
+  (.cons "status_change" AccStatusChange .nil)))
+
+/-- tr_phase_credit$_ due_fees_collected:(Maybe Grams) credit:CurrencyCollection = TrCreditPhase; -/
+def TrCreditPhase : SType := .seq
+  (.cons "due_fees_collected" (.maybe Grams) (.cons "credit" (.named "CurrencyCollection") .nil))
+
+/-- tr_phase_compute_skipped$0 reason:ComputeSkipReason = TrComputePhase;
+    tr_phase_compute_vm$1 success:Bool msg_state_used:Bool account_activated:Bool gas_fees:Grams
+      ^[ gas_used:(VarUInteger 7) gas_limit:(VarUInteger 7) gas_credit:(Maybe (VarUInteger 3))
+      mode:int8 exit_code:int32 exit_arg:(Maybe int32) vm_steps:uint32
+      vm_init_state_hash:bits256 vm_final_state_hash:bits256 ] = TrComputePhase; -/
+def TrComputePhase : SType := .sum
+  (.cons "tr_phase_compute_skipped" (tagBits "$0") "TrPhaseComputeSkipped"
+    (.seq (.cons "reason" ComputeSkipReason .nil))
+  (.cons "tr_phase_compute_vm" (tagBits "$1") "TrPhaseComputeVm" (.seq
+    (.cons "success" .bool (.cons "msg_state_used" .bool (.cons "account_activated" .bool
+    (.cons "gas_fees" Grams (.cons "_" (.ref (.seq
+      (.cons "gas_used" (.varUint 7) (.cons "gas_limit" (.varUint 7) (.cons "gas_credit" (.maybe (.varUint 3))
+      (.cons "mode" (.int 8) (.cons "exit_code" (.int 32) (.cons "exit_arg" (.maybe (.int 32))
+      (.cons "vm_steps" (.nat 32) (.cons "vm_init_state_hash" (.bits 256)
+      (.cons "vm_final_state_hash" (.bits 256) .nil))))))))))) .nil))))))
+  .nil))
+
+/-- tr_phase_action$_ success:Bool valid:Bool no_funds:Bool status_change:AccStatusChange
+      total_fwd_fees:(Maybe Grams) total_action_fees:(Maybe Grams) result_code:int32 result_arg:(Maybe int32)
+      tot_actions:uint16 spec_actions:uint16 skipped_actions:uint16 msgs_created:uint16
+      action_list_hash:bits256 tot_msg_size:StorageUsed = TrActionPhase; -/
+def TrActionPhase : SType := .seq
+  (.cons "success" .bool (.cons "valid" .bool (.cons "no_funds" .bool (.cons "status_change" AccStatusChange
+  (.cons "total_fwd_fees" (.maybe Grams) (.cons "total_action_fees" (.maybe Grams)
+  (.cons "result_code" (.int 32) (.cons "result_arg" (.maybe (.int 32))
+  (.cons "tot_actions" (.nat 16) (.cons "spec_actions" (.nat 16) (.cons "skipped_actions" (.nat 16)
+  (.cons "msgs_created" (.nat 16) (.cons "action_list_hash" (.bits 256)
+  (.cons "tot_msg_size" (.named "StorageUsed") .nil))))))))))))))
+
+/-- tr_phase_bounce_negfunds$00 = TrBouncePhase;
+    tr_phase_bounce_nofunds$01 msg_size:StorageUsed req_fwd_fees:Grams = TrBouncePhase;
+    tr_phase_bounce_ok$1 msg_size:StorageUsed msg_fees:Grams fwd_fees:Grams = TrBouncePhase; -/
+def TrBouncePhase : SType := .sum
+  (.cons "tr_phase_bounce_negfunds" (tagBits "$00") "TrPhaseBounceNegfunds" (.seq .nil)
+  (.cons "tr_phase_bounce_nofunds" (tagBits "$01") "TrPhaseBounceNofunds" (.seq
+    (.cons "msg_size" (.named "StorageUsed") (.cons "req_fwd_fees" Grams .nil)))
+  (.cons "tr_phase_bounce_ok" (tagBits "$1") "TrPhaseBounceOk" (.seq
+    (.cons "msg_size" (.named "StorageUsed") (.cons "msg_fees" Grams (.cons "fwd_fees" Grams .nil))))
+  .nil)))
+
+/-- split_merge_info$_ cur_shard_pfx_len:(## 6) acc_split_depth:(## 6) this_addr:bits256 sibling_addr:bits256
+      = SplitMergeInfo; -/
+def SplitMergeInfo : SType := .seq
+  (.cons "cur_shard_pfx_len" (.nat 6) (.cons "acc_split_depth" (.nat 6) (.cons "this_addr" (.bits 256)
+  (.cons "sibling_addr" (.bits 256) .nil))))
+
+/-- trans_ord$0000 credit_first:Bool storage_ph:(Maybe TrStoragePhase) credit_ph:(Maybe TrCreditPhase)
+      compute_ph:TrComputePhase action:(Maybe ^TrActionPhase) aborted:Bool bounce:(Maybe TrBouncePhase)
+      destroyed:Bool = TransactionDescr;
+    trans_storage$0001 storage_ph:TrStoragePhase = TransactionDescr;
+    trans_tick_tock$001 is_tock:Bool storage_ph:TrStoragePhase compute_ph:TrComputePhase
+      action:(Maybe ^TrActionPhase) aborted:Bool destroyed:Bool = TransactionDescr;
+    trans_split_prepare$0100 split_info:SplitMergeInfo storage_ph:(Maybe TrStoragePhase)
+      compute_ph:TrComputePhase action:(Maybe ^TrActionPhase) aborted:Bool destroyed:Bool = TransactionDescr;
+    trans_split_install$0101 split_info:SplitMergeInfo prepare_transaction:^Transaction installed:Bool
+      = TransactionDescr;
+    trans_merge_prepare$0110 split_info:SplitMergeInfo storage_ph:TrStoragePhase aborted:Bool = TransactionDescr;
+    trans_merge_install$0111 split_info:SplitMergeInfo prepare_transaction:^Transaction
+      storage_ph:(Maybe TrStoragePhase) credit_ph:(Maybe TrCreditPhase) compute_ph:TrComputePhase
+      action:(Maybe ^TrActionPhase) aborted:Bool destroyed:Bool = TransactionDescr;
+(`prepare_transaction`: Go keeps the referenced transaction as a raw cell, `^Any`.) -/
+def TransactionDescr : SType := .sum
+  (.cons "trans_ord" (tagBits "$0000") "TransOrd" (.seq
+    (.cons "credit_first" .bool (.cons "storage_ph" (.maybe (.named "TrStoragePhase"))
+    (.cons "credit_ph" (.maybe (.named "TrCreditPhase")) (.cons "compute_ph" (.named "TrComputePhase")
+    (.cons "action" (.maybe (.ref (.named "TrActionPhase"))) (.cons "aborted" .bool
+    (.cons "bounce" (.maybe (.named "TrBouncePhase")) (.cons "destroyed" .bool .nil)))))))))
+  (.cons "trans_storage" (tagBits "$0001") "TransStorage" (.seq
+    (.cons "storage_ph" (.named "TrStoragePhase") .nil))
+  (.cons "trans_tick_tock" (tagBits "$001") "TransTickTock" (.seq
+    (.cons "is_tock" .bool (.cons "storage_ph" (.named "TrStoragePhase")
+    (.cons "compute_ph" (.named "TrComputePhase") (.cons "action" (.maybe (.ref (.named "TrActionPhase")))
+    (.cons "aborted" .bool (.cons "destroyed" .bool .nil)))))))
+  (.cons "trans_split_prepare" (tagBits "$0100") "TransSplitPrepare" (.goPtr (.seq
+    (.cons "split_info" (.named "SplitMergeInfo") (.cons "storage_ph" (.maybe (.named "TrStoragePhase"))
+    (.cons "compute_ph" (.named "TrComputePhase") (.cons "action" (.maybe (.ref (.named "TrActionPhase")))
+    (.cons "aborted" .bool (.cons "destroyed" .bool .nil))))))))
+  (.cons "trans_split_install" (tagBits "$0101") "TransSplitInstall" (.goPtr (.seq
+    (.cons "split_info" (.named "SplitMergeInfo") (.cons "prepare_transaction" (.ref .any)
+    (.cons "installed" .bool .nil)))))
+  (.cons "trans_merge_prepare" (tagBits "$0110") "TransMergePrepare" (.goPtr (.seq
+    (.cons "split_info" (.named "SplitMergeInfo") (.cons "storage_ph" (.named "TrStoragePhase")
+    (.cons "aborted" .bool .nil)))))
+  (.cons "trans_merge_install" (tagBits "$0111") "TransMergeInstall" (.goPtr (.seq
+    (.cons "split_info" (.named "SplitMergeInfo") (.cons "prepare_transaction" (.ref .any)
+    (.cons "storage_ph" (.maybe (.named "TrStoragePhase")) (.cons "credit_ph" (.maybe (.named "TrCreditPhase"))
+    (.cons "compute_ph" (.named "TrComputePhase") (.cons "action" (.maybe (.ref (.named "TrActionPhase")))
+    (.cons "aborted" .bool (.cons "destroyed" .bool .nil))))))))))
+  .nil)))))))
+
+/-- update_hashes#72 {X:Type} old_hash:bits256 new_hash:bits256 = HASH_UPDATE X; -/
+def HashUpdate : SType := .seq
+  (.cons "magic" (.tag (tagBits "#72")) (.cons "old_hash" (.bits 256) (.cons "new_hash" (.bits 256) .nil)))
+
+/-- transaction$0111 account_addr:bits256 lt:uint64 prev_trans_hash:bits256 prev_trans_lt:uint64 now:uint32
+      outmsg_cnt:uint15 orig_status:AccountStatus end_status:AccountStatus
+      ^[ in_msg:(Maybe ^(Message Any)) out_msgs:(HashmapE 15 ^(Message Any)) ]
+      total_fees:CurrencyCollection state_update:^(HASH_UPDATE Account)
+      description:^TransactionDescr = Transaction; -/
+def Transaction : SType := .seq
+  (.cons "magic" (.tag (tagBits "$0111")) (.cons "account_addr" (.bits 256) (.cons "lt" (.nat 64)
+  (.cons "prev_trans_hash" (.bits 256) (.cons "prev_trans_lt" (.nat 64) (.cons "now" (.nat 32)
+  (.cons "outmsg_cnt" (.nat 15) (.cons "orig_status" AccountStatus (.cons "end_status" AccountStatus
+  (.cons "_" (.ref (.seq
+    (.cons "in_msg" (.maybe (.ref (.named "Message")))
+    (.cons "out_msgs" (.hashmapE 15 (.nat 15) (.ref (.named "Message"))) .nil))))
+  (.cons "total_fees" (.named "CurrencyCollection") (.cons "state_update" (.ref (.named "HashUpdate"))
+  (.cons "description" (.ref (.named "TransactionDescr")) .nil)))))))))))))
+
+/-- burning_config#01 blackhole_addr:(Maybe bits256) fee_burn_num:# fee_burn_denom:#
+      { fee_burn_num <= fee_burn_denom } { fee_burn_denom >= 1 } = BurningConfig;   (config parameter 5) -/
+def BurningConfig : SType := .seq
+  (.cons "magic" (.tag (tagBits "#01")) (.cons "blackhole_addr" (.maybe (.bits 256))
+  (.cons "fee_burn_num" (.nat 32) (.cons "fee_burn_denom" (.nat 32) .nil))))
+
+/-- msg_metadata#0 depth:uint32 initiator_addr:MsgAddressInt initiator_lt:uint64 = MsgMetadata; -/
+def MsgMetadata : SType := .seq
+  (.cons "magic" (.tag (tagBits "#0")) (.cons "depth" (.nat 32) (.cons "initiator_addr" .msgAddress
+  (.cons "initiator_lt" (.nat 64) .nil))))
+
+/-! ### wallet v5: the list of out-actions -/
+
+/-- OutList n of `action_send_msg` (see `specOutList`) -/
+def OutList : SType := .outList
+
+/-- wallet v5 (abi/schemas/wallets.xml names them by their tags; wallet-contract-v5 types.tlb):
+    action_add_ext#02 addr:MsgAddressInt = ExtendedAction;
+    action_delete_ext#03 addr:MsgAddressInt = ExtendedAction;
+    action_set_signature_auth_allowed#04 allowed:(## 1) = ExtendedAction; -/
+def W5ExtendedAction : SType := .sum
+  (.cons "action_add_ext" (tagBits "#02") "AddExtension" (.goPtr (.seq (.cons "addr" .msgAddress .nil)))
+  (.cons "action_delete_ext" (tagBits "#03") "RemoveExtension" (.goPtr (.seq (.cons "addr" .msgAddress .nil)))
+  (.cons "action_set_signature_auth_allowed" (tagBits "#04") "SetSignatureAllowed"
+    (.goPtr (.seq (.cons "allowed" .bool .nil)))
+  .nil)))
+
+/-- action_list_extended$_ {m:#} {n:#} action:ExtendedAction prev:^(ActionList n m) = ActionList n (m+1);
+the contract (and tongo) end the list at the cell that has no further reference -/
+def W5ExtendedActions : SType := .chainOf (.named "W5ExtendedAction")
+
+/-- abi/schemas/wallets.xml:
+    signed_internal#73696e74 wallet_id:uint32 valid_until:uint32 seqno:uint32
+      actions:(Maybe ^W5Actions) extended:(Maybe W5ExtendedActions) signature:bits512 = InternalMsgBody;
+    signed_external#7369676e wallet_id:uint32 valid_until:uint32 seqno:uint32
+      actions:(Maybe ^W5Actions) extended:(Maybe W5ExtendedActions) signature:bits512 = ExternalMsgBody;
+    extension_action#6578746e query_id:uint64 actions:(Maybe ^W5Actions) extended:(Maybe W5ExtendedActions)
+      = InternalMsgBody;
+(W5Actions = OutList of action_send_msg.) -/
+def WalletV5R1Body : SType := .sum
+  (.cons "signed_internal" (tagBits "#73696e74") "SignedInternal" (.goPtr (.seq
+    (.cons "wallet_id" (.nat 32) (.cons "valid_until" (.nat 32) (.cons "seqno" (.nat 32)
+    (.cons "actions" (.maybe (.ref .outList)) (.cons "extended" (.maybe W5ExtendedActions)
+    (.cons "signature" (.bits 512) .nil))))))))
+  (.cons "signed_external" (tagBits "#7369676e") "SignedExternal" (.goPtr (.seq
+    (.cons "wallet_id" (.nat 32) (.cons "valid_until" (.nat 32) (.cons "seqno" (.nat 32)
+    (.cons "actions" (.maybe (.ref .outList)) (.cons "extended" (.maybe W5ExtendedActions)
+    (.cons "signature" (.bits 512) .nil))))))))
+  (.cons "extension_action" (tagBits "#6578746e") "ExtensionAction" (.goPtr (.seq
+    (.cons "query_id" (.nat 64) (.cons "actions" (.maybe (.ref .outList))
+    (.cons "extended" (.maybe W5ExtendedActions) .nil)))))
+  .nil)))
+
+/-- abi/schemas/wallets.xml:
+    send_msg#_ mode:uint8 message:^MessageRelaxed = SendMessageAction;
+    (highload_wallet_signed_v2) signed#_ signature:bits512 subwallet_id:uint32 query_id:uint64
+      payload:(HashmapE 16 SendMessageAction) = ExternalMsgBody;
+the part after the signature (the signature is `SignedMsgBody`) -/
+def HighloadV2Body : SType := .seq
+  (.cons "subwallet_id" (.nat 32) (.cons "query_id" (.nat 64) (.cons "payload" .highloadDict .nil)))
+
 def senvList : List (String × SType) := [
   ("ExtraCurrencyCollection", ExtraCurrencyCollection), ("CurrencyCollection", CurrencyCollection),
-  ("MsgAddress", MsgAddress), ("CommonMsgInfo", CommonMsgInfo), ("TickTock", TickTock), ("StateInit", StateInit),
+  ("MsgAddress", MsgAddress), ("CommonMsgInfo", CommonMsgInfo), ("TickTock", TickTock), ("SimpleLib", SimpleLib), ("StateInit", StateInit),
   ("Message", Message), ("Grams", Grams), ("WalletV3Body", WalletV3Body), ("WalletV4Body", WalletV4Body),
-  ("SignedMsgBody", SignedMsgBody)]
+  ("SignedMsgBody", SignedMsgBody),
+  ("StorageUsed", StorageUsed), ("StorageExtraInfo", StorageExtraInfo), ("StorageInfo", StorageInfo),
+  ("AccountState", AccountState), ("AccountStorage", AccountStorage), ("ExistedAccount", ExistedAccount),
+  ("Account", Account), ("ShardAccount", ShardAccount), ("AccountStatus", AccountStatus),
+  ("AccStatusChange", AccStatusChange), ("ComputeSkipReason", ComputeSkipReason),
+  ("TrStoragePhase", TrStoragePhase), ("TrCreditPhase", TrCreditPhase), ("TrComputePhase", TrComputePhase),
+  ("TrActionPhase", TrActionPhase), ("TrBouncePhase", TrBouncePhase), ("SplitMergeInfo", SplitMergeInfo),
+  ("TransactionDescr", TransactionDescr), ("HashUpdate", HashUpdate), ("Transaction", Transaction),
+  ("OutList", OutList), ("W5ExtendedAction", W5ExtendedAction), ("W5ExtendedActions", W5ExtendedActions),
+  ("WalletV5R1Body", WalletV5R1Body), ("HighloadV2Body", HighloadV2Body), ("BurningConfig", BurningConfig),
+  ("MsgMetadata", MsgMetadata)]
 
 def senv : SEnv := fun n => (senvList.find? (·.1 == n)).map (·.2)
 
